@@ -15,7 +15,11 @@ Targets == {gt \in Versions \X Encodings \X {0, 1, 4, 8} : TargetOk(gt[1], gt[2]
 Row(gw, gh, gt, gm, gi) ==
     [kind |-> "blp", ver |-> gt[1], enc |-> gt[2], alpha |-> gt[3], w |-> gw, h |-> gh, mips |-> gm, img |-> Images[(gi % 5) + 1],
      count |-> MipCount(gw, gh, gm), dims |-> Chain(gw, gh, gm), bytes |-> LevelSizes(gt[2], gt[3], gw, gh, gm),
-     hdr |-> HeaderSize(gt[1]), loc |-> LocatorPos(gt[1])]
+     hdr |-> HeaderSize(gt[1]), loc |-> LocatorPos(gt[1]),
+     \* destination pre-states for the file-path API (save_blp / load_blp): BLP0 (external level files) gets all three,
+     \* the other versions one, rotating with the shape and the seed
+     pre |-> IF gt[1] = "Blp0" THEN <<"absent", "shorter", "longer">>
+             ELSE <<SetToSeq(PreStates)[((gw + gh + gt[3] + gi + Seed) % 3) + 1]>>]
 
 Lossless(gt) == gt[2] \in {"raw1", "raw3"}
 \* quick: every (w,h) of the small set for BLP2 raw3 / raw1-8bit / DXT1 with mipmaps; every target and both mipmap
